@@ -91,6 +91,33 @@ Theorem c19_external_tolerated :
 Proof. exact external_tolerated_thm. Qed.
 Print Assumptions c19_external_tolerated.
 
+(* a failed reopen (open() raising while the log directory is missing) does not
+   wedge the handler: from ANY handler state reopen() / remove()+reopen() end
+   open on the file at the configured path *)
+Theorem c19_reopen_any_state :
+  forall f h, let '(f', h') := reopen f h in
+  exists ino, h_stream h' = Some ino /\ get (names f') 0 = Some ino.
+Proof. exact reopen_any_state. Qed.
+Print Assumptions c19_reopen_any_state.
+
+Theorem c19_clear_any_state :
+  forall f h, let '(f', h') := clear f h in
+  exists ino, h_stream h' = Some ino /\ get (names f') 0 = Some ino /\ file f' 0 = Some [].
+Proof. exact clear_any_state. Qed.
+Print Assumptions c19_clear_any_state.
+
+(* the configured maxbytes / backups are the handler's, 0 included: backups = 0
+   stays 0 and maxbytes = 0 selects the plain FileHandler *)
+Theorem c19_config_params :
+  forall f mb bk, let h := snd (handle_file f mb bk) in
+  h_maxbytes h = mb /\ h_backups h = bk /\ h_rotating h = negb (mb =? 0).
+Proof. exact config_params. Qed.
+Print Assumptions c19_config_params.
+
+Theorem c19_config_zero_stays_zero : forall dflt, effective dflt (Some 0) = 0.
+Proof. exact config_zero_stays_zero. Qed.
+Print Assumptions c19_config_zero_stays_zero.
+
 (* Known finding C19-shared: two handlers on one path (maxbytes 10, backups 2,
    alternating 4-byte writes) leave a backup shorter than maxbytes and a
    concatenation that is not a suffix of what was written *)
